@@ -104,3 +104,15 @@ ENTRIES += [
       "        self._control_begun = True\n        self.event_dispatcher.notify(self.Event.begin_control, request, connection_reused=connection_reused)\n", 'C09-D8', FC),
     N('control-begun-other-spelling', "        if self._control_connection and self._control_begun:", "        if self._control_begun and self._control_connection is not None:", FC),
 ]
+
+import os as _os
+_PD = _os.path.join(_os.path.dirname(_os.path.dirname(_os.path.abspath(__file__))), 'patches')
+ENTRIES += [
+    # the retargeting of a repeated request extracted into a helper that is still called inside the try: every property's check is silent
+    {'id': 'C09/benign-retarget-helper-in-try', 'prop': 'C09', 'kind': 'benign', 'patch': _os.path.join(_PD, 'benign_retarget_helper_in_try.diff')},
+    {'id': 'C16/benign-retarget-helper-in-try', 'prop': 'C16', 'kind': 'benign', 'patch': _os.path.join(_PD, 'benign_retarget_helper_in_try.diff')},
+    {'id': 'C18/benign-retarget-helper-in-try', 'prop': 'C18', 'kind': 'benign', 'patch': _os.path.join(_PD, 'benign_retarget_helper_in_try.diff')},
+    {'id': 'C11/benign-retarget-helper-in-try', 'prop': 'C11', 'kind': 'benign', 'patch': _os.path.join(_PD, 'benign_retarget_helper_in_try.diff')},
+    B('recorder-control-encode-strict', "        self._control_record.block_file.write(\n            text.encode('utf-8', errors='surrogateescape')\n        )\n\n        if not data.endswith(b'\\n'):\n            self._control_record.block_file.write(b'\\n')\n\n    def control_receive_data",
+      "        self._control_record.block_file.write(text.encode('utf-8'))\n\n        if not data.endswith(b'\\n'):\n            self._control_record.block_file.write(b'\\n')\n\n    def control_receive_data", 'C09-D1', 'wpull/warc/recorder.py'),
+]
